@@ -24,6 +24,14 @@ Http ==
   /\ SameEffect /\ Released
   /\ UNCHANGED used
 
+(* one WebSocket frame with the commands: the frames that come back are, command by command, its   *)
+(* pushed lines followed by its own ok / error                                                   *)
+Ws ==
+  /\ E.ev = "ws" /\ E.alive
+  /\ E.frames = WsReply(E.twin)
+  /\ SameEffect /\ Released
+  /\ UNCHANGED used
+
 (* known finding: refusals that also push a line leave it for the next success *)
 Dev_HttpStaleLine ==
   /\ "Dev_HttpStaleLine" \in Devs
@@ -44,7 +52,7 @@ Dev_HttpMultiLine ==
   /\ SameEffect /\ Released
   /\ used' = used \cup {"Dev_HttpMultiLine"}
 
-TraceNext == l <= Len(Rec) /\ l' = l + 1 /\ (Reset \/ Http \/ Dev_HttpStaleLine \/ Dev_HttpMultiLine)
+TraceNext == l <= Len(Rec) /\ l' = l + 1 /\ (Reset \/ Http \/ Ws \/ Dev_HttpStaleLine \/ Dev_HttpMultiLine)
 TraceSpec == TraceInit /\ [][TraceNext]_tvars
 
 Progress ==
